@@ -326,6 +326,26 @@ theorem eff_iff_chain : ∀ (C : Chain α), Accepted C → ∀ v, validEff C v =
     · exact validChain_imp_validEff (D :: C) v
 
 
+/-- an accepted step is stored as declared -/
+theorem stored_of_accepts (C : Chain α) (D : FSet α) (h : accepts C D = true) : stored C D = D := by
+  rw [accepts_iff] at h
+  have he := h.2.2.2.2.2.1
+  unfold stored
+  cases hD : D.enum with
+  | none => cases D; simp_all
+  | some l =>
+    simp only [enumErrs, hD, err_nil, Bool.not_eq_false', List.all_eq_true] at he
+    have : l.filter (validChain C) = l := List.filter_eq_self.mpr he
+    cases D; simp_all
+
+theorem storedChain_of_accepted : ∀ (C : Chain α), Accepted C → storedChain C = C := by
+  intro C
+  induction C with
+  | nil => intro _; rfl
+  | cons D C ih =>
+    intro h
+    simp only [storedChain, ih h.2, stored_of_accepts C D h.1]
+
 /-! ### white space: accepted steps only move along preserve → replace → collapse -/
 
 theorem ws_monotone (C : Chain α) (D : FSet α) (h : accepts C D = true) :
